@@ -172,7 +172,13 @@ def step (st : St) (op implObs : String) : St × String × List String :=
       let modelPend := kvStr (words (line (boolStr r) [] [] none s')) "pend"
       let c10 := if r && implPend ≠ "" && implPend ≠ modelPend then
         [s!"C10 rejected-request-still-counted-as-outstanding impl={implPend} model={modelPend}"] else []
-      (addTags { st with s := s' } [s!"branch:rejected-{boolStr r}"], line (boolStr r) [] [] none s', afterChecks st st.hist itoks ++ c10)
+      -- C17: a block is queued for (re-)request once: two entries mean two requests on the wire for one slot of the
+      -- request window, i.e. more requests outstanding at the peer than the limit allows
+      let irem := natList (kvStr itoks "rem")
+      let dup := irem.filter fun b => (irem.filter (· == b)).length ≥ 2
+      let c17 := if dup.isEmpty then [] else [s!"C17 block-queued-for-request-twice blocks={showNatList dup.eraseDups}"]
+      let st' := addTags { st with s := s' } ([s!"branch:rejected-{boolStr r}"] ++ (if r ∧ !s.pending.contains (kvNat toks "begin") then ["branch:rejected-not-outstanding", "nontrivial"] else []))
+      (st', line (boolStr r) [] [] none s', afterChecks st st.hist itoks ++ c10 ++ c17)
     | "request" =>
       let q := kvInt toks "q"
       let hist := st.hist ++ [.requestBlocks q]
